@@ -7,9 +7,41 @@ THEOREMS: dict[str, list[str]] = {
         "Rbacx.C02.c02_first_applicable",
         "Rbacx.C02.c02_none_applicable",
     ],
+    "C10": [
+        "Rbacx.C10.c10_never_raises",
+        "Rbacx.C10.c10_false_is_inert",
+        "Rbacx.C10.c10_installed_by_true_check",
+        "Rbacx.C10.c10_policy_is_loaded",
+        "Rbacx.C10.c10_sequential_latest",
+        "Rbacx.C10.c10_backoff_bounded_step",
+        "Rbacx.C10.c10_backoff_bounded",
+        "Rbacx.C10.c10_forced_still_loads",
+        "Rbacx.C10.c10_unforced_suppressed",
+        "Rbacx.C10.c10_conc_policy_is_loaded",
+        "Rbacx.C10.c10_conc_never_raises",
+        "Rbacx.C10.c10_conc_false_is_inert",
+        "Rbacx.Reloader.blocks_eq_check",
+        "Rbacx.C10.c10_converges",
+        "Rbacx.C10.c10_converges_midcheck",
+        "Rbacx.C10.c10_converges_http_partial",
+        "Rbacx.C10.c10_http_cached_tag_counterexample",
+        "Rbacx.C10.c10_http_remote_tag_converges",
+        "Rbacx.Reloader.fileHonest",
+        "Rbacx.Reloader.s3Honest",
+        "Rbacx.Reloader.customHonest",
+        "Rbacx.Reloader.httpPlainHonest",
+        "Rbacx.Reloader.httpRemoteHonest",
+        "Rbacx.Reloader.file_stable",
+        "Rbacx.Reloader.s3_stable",
+        "Rbacx.Reloader.http_plain_stable",
+        "Rbacx.Reloader.file_write_ok",
+        "Rbacx.Reloader.file_touch_ok",
+        "Rbacx.Reloader.s3_write_ok",
+        "Rbacx.Reloader.s3_other_ok",
+    ],
 }
 
-PROPERTY_IMPORTS = ["Rbacx.Properties.C02"]
+PROPERTY_IMPORTS = ["Rbacx.Properties.C02", "Rbacx.Properties.C10"]
 
 
 def audit_source() -> str:
